@@ -1,0 +1,60 @@
+//go:build verif
+// +build verif
+
+package sml
+
+// Verification hooks (build tag "verif" only): logical step counters of one
+// Parse call, so that "does not hang" can be decided on steps instead of wall
+// clock. Every lexer state function consumes input, emits a token or
+// terminates, so on a terminating lexer the counts are linear in the input
+// length; a count above a generous linear budget is a deterministic witness of
+// a loop that is not consuming input. Not part of the public API.
+
+type verifCounters struct {
+	nexts    int64 // lexer.next() calls
+	states   int64 // state function invocations in lexer.nextToken()
+	peeks    int64 // parser.peek() calls
+	exceeded bool
+}
+
+// VerifBudgetExceeded is the panic value raised when a step budget is exceeded.
+type VerifBudgetExceeded struct {
+	What     string
+	Count    int64
+	Budget   int64
+	InputLen int
+}
+
+// VerifHook, when set (before any Parse call starts), is called at the end of
+// every Parse call with that call's step counts.
+var VerifHook func(inputLen int, nexts, states, peeks int64, exceeded bool)
+
+func verifNext(l *lexer) {
+	l.verif.nexts++
+	if b := 64*int64(len(l.input)) + 1024; l.verif.nexts > b {
+		l.verif.exceeded = true
+		panic(VerifBudgetExceeded{"lexer.next", l.verif.nexts, b, len(l.input)})
+	}
+}
+
+func verifState(l *lexer) {
+	l.verif.states++
+	if b := 8*int64(len(l.input)) + 256; l.verif.states > b {
+		l.verif.exceeded = true
+		panic(VerifBudgetExceeded{"lexer state", l.verif.states, b, len(l.input)})
+	}
+}
+
+func verifPeek(l *lexer) {
+	l.verif.peeks++
+	if b := 64*int64(len(l.input)) + 1024; l.verif.peeks > b {
+		l.verif.exceeded = true
+		panic(VerifBudgetExceeded{"parser.peek", l.verif.peeks, b, len(l.input)})
+	}
+}
+
+func verifDone(l *lexer) {
+	if VerifHook != nil {
+		VerifHook(len(l.input), l.verif.nexts, l.verif.states, l.verif.peeks, l.verif.exceeded)
+	}
+}
